@@ -32,6 +32,8 @@ CONSTANTS
     MaxErrs,        \* bound on injected LowerLevelUpdate failures
     MaxReopens,     \* bound on close/reopen cycles (needs HasLL /\ LLInit)
     InitKeys,       \* keys the lower level already holds (value <<9>>) when the behaviour starts
+    InitKids,       \* child collections (paths, parents included) the lower level already holds, each with key 1 = <<9>>:
+                    \* the behaviour then starts with a restoreCollection of children from the store
     MaxPokes,       \* bound on merger cycles started without incoming data (pings / idle runs)
     Devs            \* named deviations switched on
 
@@ -222,10 +224,23 @@ TreeHasMrg(t) == \E p \in Paths : t[p].has /\ \E i \in 1..Len(t[p].segs) : \E k 
 TreeEmpty(t) == \A p \in Paths : t[p].has => t[p].segs = <<>>    \* segmentStack.isEmpty()
 
 -----------------------------------------------------------------------------
-InitContent == [EmptyContent EXCEPT ![Root].m = [k \in Keys |-> IF k \in InitKeys THEN Present(<<9>>) ELSE Absent]]
+\* restoreCollection numbers the incarnations depth first (as Reopen does)
+RECURSIVE InitIncar(_)
+InitIncar(p) ==
+    IF p = Root THEN 0
+    ELSE InitIncar(Par[p]) + Cardinality({r \in Kids(Par[p]) : r \in InitKids /\ Idx(r) <= Idx(p)})
+
+InitContent ==
+    [p \in Paths |->
+        IF p = Root THEN [ex |-> TRUE, incar |-> 0, m |-> [k \in Keys |-> IF k \in InitKeys THEN Present(<<9>>) ELSE Absent]]
+        ELSE IF p \in InitKids THEN [ex |-> TRUE, incar |-> InitIncar(p), m |-> [k \in Keys |-> IF k = 1 THEN Present(<<9>>) ELSE Absent]]
+        ELSE NoC]
 
 Init ==
-    /\ coll = [p \in Paths |-> [ex |-> p = Root, incar |-> 0, hi |-> 0]]
+    /\ coll = [p \in Paths |->
+                 IF p = Root \/ p \in InitKids
+                 THEN [ex |-> TRUE, incar |-> InitIncar(p), hi |-> InitIncar(p) + Cardinality({r \in Kids(p) : r \in InitKids})]
+                 ELSE [ex |-> FALSE, incar |-> 0, hi |-> 0]]
     /\ top = NilSec /\ mid = NilSec /\ base = NilSec /\ clean = NilSec
     /\ ll = [nil |-> ~(HasLL /\ LLInit), c |-> InitContent]
     /\ store = InitContent
